@@ -157,6 +157,36 @@ pub fn b_times(with_leap: bool) -> Vec<(u32, u32)> {
     v
 }
 
+/// one nanosecond field per count of significant fraction digits (1..=9), three shapes each: the leading digits of
+/// 123456789, a lone 1 in the last kept place (leading zeros), and all nines
+pub fn frac_digit_classes() -> Vec<u32> {
+    let mut v = vec![];
+    for p in 1..=9u32 {
+        let scale = 10u32.pow(9 - p);
+        v.push(123_456_789 / scale * scale);
+        v.push(scale);
+        v.push(999_999_999 / scale * scale);
+    }
+    v.sort();
+    v.dedup();
+    v
+}
+
+/// b_times plus every fraction-digit class on an ordinary second, on second 59 and (optionally) inside a leap second
+pub fn b_times_fracs(with_leap: bool) -> Vec<(u32, u32)> {
+    let mut v = b_times(with_leap);
+    for f in frac_digit_classes() {
+        v.push((45_296, f));
+        v.push((86_399, f));
+        if with_leap {
+            v.push((86_399, 1_000_000_000 + f));
+        }
+    }
+    v.sort();
+    v.dedup();
+    v
+}
+
 /// durations in ns (within and around the TimeDelta range)
 pub fn b_durs() -> Vec<i128> {
     let mut v: Vec<i128> = vec![0];
